@@ -630,8 +630,8 @@ class Table(Vector):
 								found = True
 								break
 
-								if not found:
-									raise _missing_col_error(col_name)
+				if not found:
+					raise _missing_col_error(col_name)
 			return Table(selected_cols)
 		
 		if isinstance(key, tuple):
